@@ -124,7 +124,12 @@ def judge(ctx, cases, masks="one"):
         ctx.cov["deviations_beyond_cap"] = ctx.cov.get("deviations_beyond_cap", 0) + res["nbad"] - len(res["bad"])
     # validity of every distinct JSON text the encoders produced: JsonText must accept it
     if os.path.getsize(valid) > 0:
-        vres = ctx.validate("TraceJson", valid, cfg=VALID_CFG, chunk=8000 if ctx.quick else 30000)
+        if ctx.quick:
+            # quick tier: every other distinct output text (sorted order, fixed stride); the thorough tier validates all
+            vl = open(valid, "rb").readlines()
+            if len(vl) > 2000:
+                open(valid, "wb").write(b"".join(vl[::2]))
+        vres = ctx.validate("TraceJson", valid, cfg=VALID_CFG, chunk=4000 if ctx.quick else 30000)
         ctx.cov["distinct_outputs_validated"] = ctx.cov.get("distinct_outputs_validated", 0) + vres["n"]
         vlines = None
         for b in vres["bad"]:
